@@ -56,6 +56,9 @@ def cases(tier, rng):
         for over in (1, 7, 8, 9, bs):
             for n in (0, 1, B - 1, B, B + 1):
                 yield {'k': 'reject', 'alg': alg, 'n': n, 'over': over}
+        for shape in ('pending', 'pending-partial', 'finalised', 'refused-final', 'bytearray-arg'):
+            for n in (0, 3, B - 1, B, B + 9):
+                yield {'k': 'after-stream', 'alg': alg, 'shape': shape, 'n': n}
         # multi-word bit counters
         top = 32 if w == 32 else 64
         for kblocks in (-2, -1, 0, 1):
@@ -112,6 +115,30 @@ def run(case, ctx, rng):
         ctx.cls((alg, 'reject', n, case['over']))
         got = call(h, m, L)
         ctx.check('oversized-bitlen-rejected', is_exc(got), got, 'an error (no digest)', alg=alg, n=n, L=L)
+    elif k == 'after-stream':
+        # a one-shot call on an object that holds a pending / finished / refused stream hashes its own message only
+        shape, n = case['shape'], case['n']
+        ctx.cls((alg, 'after-stream', shape, n % B, n // B))
+        m = rng.randbytes(n)
+        def prep():
+            h.initstate()
+            if shape == 'pending': h.update(rng.randbytes(B))
+            elif shape == 'pending-partial': h.update(rng.randbytes(2 * B))
+            elif shape == 'finalised': h.update(rng.randbytes(B + 5), padding=True)
+            elif shape == 'refused-final':
+                h.update(rng.randbytes(B)); call(lambda: h.update(b'xy', bitlen=8 * B + 99, padding=True))
+        call(prep)
+        if shape == 'bytearray-arg':
+            buf = bytearray(m)
+            got = call(h, buf)
+            ctx.eq('digest==reference', got, mdsha.digest(alg, m), alg=alg, n=n, arg='bytearray')
+            ctx.eq('digest==reference', bytes(buf), m, alg=alg, n=n, arg='bytearray left unchanged')
+            for i in range(len(buf)): buf[i] ^= 0xff
+            m = rng.randbytes(n + 1)
+        got = call(h, m)
+        ctx.eq('digest==reference', got, mdsha.digest(alg, m), alg=alg, n=n, m=m, after_stream=shape)
+        L = max(0, 8 * n - 3)
+        ctx.eq('digest==reference', call(h, m, L), mdsha.digest(alg, m, L), alg=alg, L=L, m=m, after_stream=shape, second_call=True)
     elif k == 'preset':
         P, nblk, tail = case['preset'], case['nblk'], case['tail']
         blocks = rng.randbytes(nblk * B); t = rng.randbytes(tail)
